@@ -589,6 +589,7 @@ pub fn run_thr(case: &Case, dir: PathBuf) -> Outcome {
     crate::hooks::set_rotation_threshold(case.cfg.rotation_threshold);
     let max_steps = 400_000;
     sched::begin(case.cfg.sched_seed, case.cfg.stickiness, case.schedule.clone(), max_steps);
+    sched::set_starve_on_drop(case.cfg.starve_on_drop);
     let mut stats = Stats::default();
     let mut violation: Option<Violation> = None;
 
